@@ -89,6 +89,13 @@ func runC02(r *run) {
 				emit(caseT{"goleaf", []string{hx(strings.ReplaceAll(tpl, "L", leaf)), leaf}})
 			}
 		}
+		// every way an application configures a set or a template through the public API before it
+		// renders: none of them is an opt-out of escaping
+		for variant := 0; variant < 10; variant++ {
+			for _, src := range []string{"{{ s1 }}", "{% for x in sgl %}\n{{ x }}\n{% endfor %}", "  {% if s1 %}\n{{ s1|upper }}{% endif %}", "{% include \"inc.tpl\" %}", "{% set n = \"inc.tpl\" %}{% include n %}"} {
+				emit(caseT{"goapi", []string{hx(src), fmt.Sprint(variant)}})
+			}
+		}
 		// values Go code passes with a String method, a cycle value, map keys, nested data
 		for _, src := range []string{"{{ sg }}", "{{ psg }}", "{% for x in sgl %}{{ x }}{% endfor %}", "{% with y=sg %}{{ y }}{% endwith %}",
 			"{% cycle s1 s2 as row silent %}{{ row }}", "{% for k, v in tm sorted %}{{ k }}{{ v }}{% endfor %}", "{{ sg|upper }}", "{% firstof sg %}"} {
@@ -172,7 +179,75 @@ func execGoLeaf(r *run, c caseT) {
 	}
 }
 
+func execGoAPI(r *run, c caseT) {
+	src := unhx(c.args[0])
+	var variant int
+	fmt.Sscanf(c.args[1], "%d", &variant)
+	ctx := pongo2.Context{"s1": c02Marker, "sgl": []any{stringerT{c02Marker}, c02Marker}}
+	loader := newMemLoader(map[string]string{"inc.tpl": "[{{ s1 }}]\n"})
+	set := pongo2.NewSet("goapi", loader)
+	obs, out := "", ""
+	func() {
+		defer func() {
+			if p := recover(); p != nil {
+				obs = "panic:" + fmt.Sprint(p)
+			}
+		}()
+		switch variant {
+		case 1:
+			set.Options = &pongo2.Options{TrimBlocks: true}
+		case 2:
+			set.Options = &pongo2.Options{LStripBlocks: true}
+		case 3:
+			set.Options = &pongo2.Options{}
+		case 4:
+			set.Options.Update(&pongo2.Options{TrimBlocks: true, LStripBlocks: true})
+		case 5:
+			set.Debug = true
+			set.Globals["g"] = c02Marker
+		}
+		tpl, err := set.FromString(src)
+		if err != nil {
+			obs = "cerr"
+			return
+		}
+		switch variant {
+		case 6:
+			tpl.Options = &pongo2.Options{TrimBlocks: true}
+		case 7:
+			tpl.Options = &pongo2.Options{}
+		case 8:
+			tpl.Options.Update(&pongo2.Options{LStripBlocks: true})
+		case 9:
+			o := *tpl.Options
+			o.TrimBlocks = true
+			tpl.Options = &o
+		}
+		var xerr error
+		out, xerr = tpl.Execute(ctx)
+		if xerr != nil {
+			obs = "xerr"
+		} else {
+			obs = obsOK(out)
+		}
+	}()
+	id := r.emit(c.op, c.args, "goapi:"+obs)
+	r.nontrivial(c.args[0] + c.args[1])
+	switch {
+	case strings.HasPrefix(obs, "panic"):
+		r.reject(id, "panic", map[string]any{"template": src, "variant": variant, "observed": obs})
+	case !strings.HasPrefix(obs, "ok:"):
+		r.reject(id, "a configured set or template does not render", map[string]any{"template": src, "variant": variant, "observed": obs})
+	case hasRaw(out):
+		r.reject(id, "a context value reached the output unescaped after the set or template was configured through the public API", map[string]any{"template": src, "variant": variant, "output": out})
+	}
+}
+
 func execC02(r *run, c caseT) {
+	if c.op == "goapi" {
+		execGoAPI(r, c)
+		return
+	}
 	if c.op == "goleaf" {
 		execGoLeaf(r, c)
 		return
